@@ -67,11 +67,11 @@ theorem C18_timeout (s : State) (hw : s.restoreWaiting = true) (ht : "restoreHoo
 
 /-- **Reported error**: a restore error (or an init error while restoring) moves the runtime to
     RestoreError and cancels the init flow with the user error; the pending restore then fails with
-    that (sanitised) type. -/
+    that type, sanitised by the C20 model (`Rie.ErrType.sanitize`, see `C20_errtype_closed`). -/
 theorem C18_user_error (s : State) (et : String) (hrt : s.rt = some .restoring) :
     let s' := rtRestoreError s et
     s'.rt = some .restoreError ∧ s'.initFlow.runtimeReady.canceled = true ∧
-    s'.initFlow.runtimeReady.err = some .restoreUser ∧ s'.restoreUserType = et := by
+    s'.initFlow.runtimeReady.err = some .restoreUser ∧ s'.restoreUserType = sanitizeType et := by
   simp [rtRestoreError, hrt, rtProg, runRtInstrs, flowCall, cancelInitFlow, Latch.cancel, reply, State.emit]
 
 theorem C18_user_error_result (s : State) (hw : s.restoreWaiting = true) (hf : s.fatal = none)
